@@ -806,6 +806,21 @@ func Run(c *Case, props map[string]bool) (res Result) {
 				if t == "" || op.Flip > 0 || w.delayed[n] || w.dups[n] || !keptOpen[t] || !readyBefore[t] || w.dialed[t][len(w.dialed[t])-1].GetState() != connectivity.Ready {
 					continue
 				}
+				// an unreachable endpoint of higher priority whose pool has not noticed yet still counts as connected for the
+				// library ("reflects the connectivity of the kept pools"): nothing to demand then
+				stale := false
+				for _, e := range l {
+					if e == t {
+						break
+					}
+					if readyBefore[e] || (len(w.dialed[e]) > 0 && w.dialed[e][len(w.dialed[e])-1].GetState() == connectivity.Ready) {
+						stale = true
+					}
+				}
+				if stale {
+					w.labels["immediate-routing-not-checked-stale-pool-state"]++
+					continue
+				}
 				got, p := w.route(n, true, false)
 				if p != nil {
 					w.fail("C16", "rpc-panic", "update: RPC on %q panicked: %v", n, p)
